@@ -15,7 +15,7 @@ import (
 func c04Height(T int32) int { return bits.Len32(uint32(T)) - 1 }
 
 // the correspondence domain (the model side answers BAD outside it): at most 2^13 search values
-// in the window, Decode on heights <= 14.  Outside it the real function is not called at all, so a
+// in the window, Decode on heights <= 17.  Outside it the real function is not called at all, so a
 // shrinking step of ./check cannot ask for 2^30 words.
 func c04WinOK(T int32, from, to uint64) bool {
 	if T < 1 {
@@ -27,7 +27,7 @@ func c04WinOK(T int32, from, to uint64) bool {
 	}
 	return t <= from>>32 || t-from>>32 <= 8192
 }
-func c04DecOK(T int32) bool { return T >= 1 && c04Height(T) <= 14 }
+func c04DecOK(T int32) bool { return T >= 1 && c04Height(T) <= 17 }
 
 func c04AllPaths(T int32, from, to uint64) []uint64 {
 	if !c04WinOK(T, from, to) {
@@ -102,6 +102,21 @@ func init() {
 			idx = append(idx, bmtree.PathToIndex(T, c10Word(h, q)))
 		}
 		return U64s(c04Decode(T, bitmap.Of(idx)))
+	}
+	// a session: AllPaths ([0,T,from,to]) / Decode ([1,T,bm]) calls executed in order in this process
+	Exec["bmtree.Session"] = func(a []V) string {
+		rs := make([]string, 0, len(a[0].L))
+		for _, c := range a[0].L {
+			switch c.L[0].Int() {
+			case 0:
+				rs = append(rs, U64s(c04AllPaths(c.L[1].I32(), c.L[2].U64(), c.L[3].U64())))
+			case 1:
+				rs = append(rs, U64s(c04Decode(c.L[1].I32(), c.L[2].U64s())))
+			default:
+				panic("out of the correspondence domain")
+			}
+		}
+		return L(rs...)
 	}
 	// widening: the sub-tree of a node as a window [word of q, word of the right-most leaf below q + 1)
 	Exec["bmtree.AllPaths/subtree"] = func(a []V) string {
@@ -351,7 +366,7 @@ func genC04(g *Gen) {
 			key = fmt.Sprintf("D/%s/%s/%s/beyond%v/%s", c03Kind(T), c04HB(h), lb, beyond, c04NB(in))
 		}
 		g.Do("bmtree.Decode"+sfx, L(I32(T), U64s(bm)), key)
-		if g.R.Intn(8) == 0 || T > 14 && g.R.Intn(2) == 0 {
+		if T < 1<<15 && (g.R.Intn(8) == 0 || T > 14 && g.R.Intn(2) == 0) {
 			k2 := ""
 			if key != "" {
 				k2 = "E" + key[1:]
@@ -396,6 +411,51 @@ func genC04(g *Gen) {
 			g.Do("bmtree.Decode/held", L(L(I32(T), U64s(bm)), L(I32(T2), U64s(bm2))), key)
 			g.Do("bmtree.Decode/held", L(L(I32(T2), U64s(bm2)), L(I32(T), U64s(bm))), key)
 		}
+	}
+
+	// (0b) sessions, early in the run: two trees with the same level pattern at different heights
+	//      (S and S<<k for every partially stored S < 2^7, k = 1..4, in both orders), optionally
+	//      with a full / leaves-only tree in between, AllPaths on a small window or Decode
+	if rel {
+		ap := func(T int32, to uint64) string { return L("0", I32(T), U(0), U(to)) }
+		dc := func(T int32) string {
+			bm := make([]uint64, (int(T)+63)/64)
+			for i := range bm {
+				bm[i] = ^uint64(0)
+			}
+			return L("1", I32(T), U64s(bm))
+		}
+		for S := int32(1); S < 1<<7; S++ {
+			if c03Kind(S) != "part" {
+				continue
+			}
+			for k := 1; k <= 4; k++ {
+				S2 := S << uint(k)
+				h2 := c04Height(S2)
+				win := uint64(8) << 32
+				between := []string{ap(int32(1)<<uint(h2+1)-1, win), ap(int32(1)<<uint(h2), win), dc(3), dc(4)}[g.R.Intn(4)]
+				var calls [][]string
+				switch (int(S) + k) % 4 {
+				case 0:
+					calls = [][]string{{ap(S, win), ap(S2, win)}, {ap(S2, win), ap(S, win)}}
+				case 1:
+					calls = [][]string{{ap(S, win), between, ap(S2, ^uint64(0)), ap(S, win)}}
+				case 2:
+					calls = [][]string{{ap(S2, win), between, ap(S, ^uint64(0))}, {ap(S, 1<<32), ap(S2, 1<<32)}}
+				default:
+					if h2 <= 8 {
+						calls = [][]string{{dc(S), dc(S2)}, {dc(S2), between, dc(S)}}
+					} else {
+						calls = [][]string{{ap(S, win), ap(S2, win), ap(S, win)}}
+					}
+				}
+				for _, cs := range calls {
+					g.Stat("session")
+					g.Do("bmtree.Session", L(L(cs...)), fmt.Sprintf("Z/%s/k%d/n%d", c04HB(h2), k, len(cs)))
+				}
+			}
+		}
+		g.Exhaust = append(g.Exhaust, "Session: every partially stored S < 2^7 x k in 1..4: calls on S and S<<k in one process (both orders over the sweep), AllPaths windows or Decode, optionally a full / leaves-only tree in between")
 	}
 
 	// candidate bounds of a small tree: every stored word, every stored word +-1, 0, 2^64-1
@@ -645,6 +705,22 @@ func genC04(g *Gen) {
 		st := c04Stored(T, h)
 		S := []c04Node{st[0], st[len(st)/2], st[len(st)-2], st[len(st)-1]}
 		roundtrip(T, S, "R-tall")
+	}
+
+	// (3c) one Decode call on a tree of height 16 (the slowest case of the run: ./check re-runs the slowest
+	//      cases under other GOMAXPROCS values; the model needs ~8 s for it), sparse bitmaps with bits in the first,
+	//      middle and last words
+	for _, h := range []int{16} {
+		T := int32(uint32(1)<<uint(h) | uint32(g.R.U64())&0xff)
+		nw := (int(T) + 63) / 64
+		bm := make([]uint64, nw)
+		for j := 0; j < 24; j++ {
+			bm[nw-1-g.R.Intn(nw/16)] |= 1 << uint(g.R.Intn(64))
+			bm[g.R.Intn(nw)] |= 1 << uint(g.R.Intn(64))
+		}
+		bm[0] |= 1
+		bm[(int(T)-1)>>6] |= 1 << uint((int(T)-1)&63)
+		decode(T, bm, "D-h16+")
 	}
 
 	// (4) Decode / round trip, heights 0..10 (thorough: 12): bitmaps of ceil(T/64)-1, +0, +2 words,
